@@ -332,6 +332,12 @@ def run_recipe(ctx, recipe: dict, chaos: Optional[Callable] = None) -> dict:
                 for k, n in diverged.items():
                     if n:
                         ctx.count(f"truth:steps-with-visible≠actual:{k}")
+                dup = 0
+                for node in game.simulation.network.nodes.values():
+                    groups = [[x.name for x in node.services.values()], [x.name for x in node.applications.values()],
+                              [f.name for f in node.file_system.folders.values()]] + [[x.name for x in f.files.values()] for f in node.file_system.folders.values()]
+                    dup += sum(1 for g in groups if len(g) != len(set(g)))
+                ctx.count("truth:steps-with-duplicate-live-names", 1 if dup else 0)
             for name, agent in rig.agents_with_obs(game):
                 tr = tracks[f"{ep}:{name}"]
                 cur = agent.observation_manager.current_observation
